@@ -25,6 +25,9 @@ pub enum ROp {
     UnregSignal { sig: u8 },
     Deliver { sig: u8, solo: bool },
     RegForbidden,
+    /// third-party code installs its own handler with plain sigaction (only has an effect while
+    /// the library has not taken the signal over): variant 0/1 plain A/B, 2/3 siginfo A/B
+    ForeignSigaction { sig: u8, variant: u8 },
 }
 
 #[derive(Clone, Debug, Serialize, Deserialize)]
@@ -72,6 +75,7 @@ fn op_strategy(f: Focus) -> BoxedStrategy<ROp> {
         w_unsig => (0u8..3).prop_map(|sig| ROp::UnregSignal { sig }),
         w_del => (0u8..3, prop::bool::weighted(p_solo)).prop_map(|(sig, solo)| ROp::Deliver { sig, solo }),
         w_forb + 0 => Just(ROp::RegForbidden),
+        (if f == Focus::C04 { 3 } else { 0 }) => (0u8..3, 0u8..4).prop_map(|(sig, variant)| ROp::ForeignSigaction { sig, variant }),
     ]
     .boxed()
 }
@@ -216,6 +220,44 @@ extern "C" fn foreign1(sig: c_int) {
 extern "C" fn foreign3(sig: c_int, info: *mut siginfo_t, ctx: *mut c_void) {
     vsched::mark("foreign3", sig as i64, cur_delivery());
     vsched::mark("foreign3-args", info as usize as i64, ctx as usize as i64);
+}
+
+extern "C" fn foreign1b(sig: c_int) {
+    vsched::mark("foreign1b", sig as i64, cur_delivery());
+}
+
+extern "C" fn foreign3b(sig: c_int, info: *mut siginfo_t, ctx: *mut c_void) {
+    vsched::mark("foreign3b", sig as i64, cur_delivery());
+    vsched::mark("foreign3-args", info as usize as i64, ctx as usize as i64);
+}
+
+const FOREIGN_NAMES: [&str; 4] = ["foreign1", "foreign1b", "foreign3", "foreign3b"];
+
+fn foreign_sigaction(sig: c_int, variant: u8) {
+    // atomic with respect to the schedule: no scheduling point in here
+    unsafe {
+        let mut cur: libc::sigaction = std::mem::zeroed();
+        libc::sigaction(sig, std::ptr::null(), &mut cur);
+        if cur.sa_sigaction == registry::verif::handler_addr() {
+            vsched::mark("foreign-sigaction-skipped", sig as i64, variant as i64);
+            return;
+        }
+        let mut sa: libc::sigaction = std::mem::zeroed();
+        match variant % 4 {
+            0 => sa.sa_sigaction = foreign1 as usize,
+            1 => sa.sa_sigaction = foreign1b as usize,
+            2 => {
+                sa.sa_sigaction = foreign3 as usize;
+                sa.sa_flags = libc::SA_SIGINFO;
+            }
+            _ => {
+                sa.sa_sigaction = foreign3b as usize;
+                sa.sa_flags = libc::SA_SIGINFO;
+            }
+        }
+        libc::sigaction(sig, &sa, std::ptr::null_mut());
+        vsched::mark("foreign-sigaction", sig as i64, (variant % 4) as i64);
+    }
 }
 
 fn install_prior(sig: c_int, kind: u8) {
@@ -378,6 +420,7 @@ fn run_op(thread: usize, idx: usize, op: &ROp, my_ids: &mut Vec<(SigId, u32)>) {
             }
         }
         ROp::Deliver { sig, solo } => sim_deliver(SIGS[*sig as usize % 3], *solo),
+        ROp::ForeignSigaction { sig, variant } => foreign_sigaction(SIGS[*sig as usize % 3], *variant),
         ROp::RegForbidden => {
             let c = vsched::call("register-forbidden", libc::SIGKILL as i64, 0);
             let r = std::panic::catch_unwind(|| unsafe { registry::register(libc::SIGKILL, || ()) });
@@ -487,6 +530,7 @@ pub fn analyse(case: &RegCase, res: &RunResult) -> CaseReport {
     let mut open_sec: HashMap<(i32, usize), Vec<usize>> = HashMap::new();
     let mut frees: Vec<(usize, usize)> = Vec::new();
     let mut installed: Vec<(usize, i64)> = Vec::new();
+    let mut foreign_installs: Vec<(usize, i64, i64)> = Vec::new(); // (pos, sig, variant)
     let mut blocked_mutex = false;
     let mut spun = false;
     let mut unexpected_panics: Vec<String> = Vec::new();
@@ -577,11 +621,12 @@ pub fn analyse(case: &RegCase, res: &RunResult) -> CaseReport {
                         dels[*k].act_infos.push(*a);
                     }
                 }
-                "foreign1" | "foreign3" => {
+                "foreign1" | "foreign3" | "foreign1b" | "foreign3b" => {
                     if let Some(d) = dels.iter_mut().find(|d| d.id == *b) {
-                        d.foreign.push((i, if *name == "foreign1" { "plain" } else { "siginfo" }));
+                        d.foreign.push((i, FOREIGN_NAMES.iter().find(|n| **n == *name).cloned().unwrap_or("foreign1")));
                     }
                 }
+                "foreign-sigaction" => foreign_installs.push((i, *a, *b)),
                 "foreign3-args" => {
                     if let Some(k) = open_del.get(&r.tid).and_then(|s| s.last()) {
                         dels[*k].foreign_args.push((*a, *b));
@@ -899,44 +944,85 @@ pub fn analyse(case: &RegCase, res: &RunResult) -> CaseReport {
 
     // ---- C04
     let mut nt04 = false;
+    // the disposition third-party code had in place for `sig` at log position `pos`:
+    // None = default/ignore, Some(name) = a real handler
+    let prior_at = |sig: i64, pos: usize| -> Option<&'static str> {
+        let si = SIGS.iter().position(|s| *s as i64 == sig).unwrap_or(0);
+        let mut cur: Option<&'static str> = match case.priors.get(si).cloned().unwrap_or(0) {
+            2 => Some("foreign1"),
+            3 => Some("foreign3"),
+            _ => None,
+        };
+        for (p, s, v) in &foreign_installs {
+            if *s == sig && *p < pos {
+                cur = Some(FOREIGN_NAMES[*v as usize % 4]);
+            }
+        }
+        cur
+    };
     for d in dels.iter().filter(|d| d.target == 1 && d.end.is_some()) {
-        let si = SIGS.iter().position(|s| *s as i64 == d.sig).unwrap_or(0);
-        let prior = case.priors.get(si).cloned().unwrap_or(0);
+        let ipos = match installed.iter().find(|(_, s)| *s == d.sig) {
+            Some((p, _)) => *p,
+            None => continue,
+        };
+        // the first registration of this signal: its call position and its data publish
+        let first_reg = ops.iter().filter(|o| o.name == "register" && o.a == d.sig && o.call < ipos).last();
+        let reg_call = first_reg.map_or(0, |o| o.call);
+        let first_pub = pubs.iter().find(|p| ops[p.op].name == "register" && ops[p.op].a == d.sig).map(|p| p.pos).unwrap_or(usize::MAX);
+        let at_takeover = prior_at(d.sig, ipos);
+        let in_window = d.start < first_pub;
+        // acceptable chained handlers: after the registration completed, exactly the disposition
+        // in place when the library took over; inside the take-over window also whatever was in
+        // place since the registration began (the documented transient race)
+        let mut acceptable: Vec<Option<&'static str>> = vec![at_takeover];
+        if in_window {
+            acceptable.push(prior_at(d.sig, reg_call));
+            for (p, s, v) in &foreign_installs {
+                if *s == d.sig && *p > reg_call && *p < ipos {
+                    acceptable.push(Some(FOREIGN_NAMES[*v as usize % 4]));
+                }
+            }
+        }
         let n = d.foreign.len();
-        if prior >= 2 {
-            let want = if prior == 2 { "plain" } else { "siginfo" };
-            if n != 1 {
-                rep.viol(&format!("C04/foreign-calls={}", n.min(2)), format!("pre-existing handler of signal {} called {} times in delivery {}", d.sig, n, d.id));
-            } else {
-                if d.foreign[0].1 != want {
-                    rep.viol("C04/args", format!("pre-existing {} handler called with the other convention", want));
+        let called: Option<&'static str> = d.foreign.first().map(|f| f.1);
+        if n > 1 {
+            rep.viol("C04/foreign-calls=2", format!("pre-existing handler of signal {} called {} times in delivery {}", d.sig, n, d.id));
+        } else if !acceptable.contains(&called) {
+            match (called, at_takeover) {
+                (None, Some(w)) => rep.viol("C04/foreign-calls=0", format!("pre-existing handler {} of signal {} called 0 times in delivery {}", w, d.sig, d.id)),
+                (Some(c), None) => rep.viol("C04/foreign-calls=x", format!("handler {} was called for signal {} whose previous disposition was default/ignore", c, d.sig)),
+                (Some(c), Some(w)) => {
+                    let key = if c.starts_with("foreign1") != w.starts_with("foreign1") { "C04/args" } else { "C04/wrong-handler" };
+                    rep.viol(key, format!("delivery {} of signal {} chained to {} but the handler in place when the library took the signal over was {}", d.id, d.sig, c, w))
                 }
-                if let Some(first) = d.runs.first() {
-                    if first.1 < d.foreign[0].0 {
-                        rep.viol("C04/foreign-after-action", format!("action {} ran before the pre-existing handler in delivery {}", first.0, d.id));
-                    }
-                }
-                if prior == 3 && d.foreign_args.first().map_or(true, |a| a.0 != d.info || a.1 != d.ctx) {
-                    rep.viol("C04/args", format!("pre-existing siginfo handler got different info/context pointers in delivery {}", d.id));
+                (None, None) => {}
+            }
+        }
+        if let Some(c) = called {
+            if let Some(first) = d.runs.first() {
+                if first.1 < d.foreign[0].0 {
+                    rep.viol("C04/foreign-after-action", format!("action {} ran before the pre-existing handler in delivery {}", first.0, d.id));
                 }
             }
-            // window: between Installed(sig) and the first data publish for that signal
-            if let Some((ipos, _)) = installed.iter().find(|(_, s)| *s == d.sig) {
-                let first_pub = pubs.iter().find(|p| ops[p.op].name == "register" && ops[p.op].a == d.sig).map(|p| p.pos).unwrap_or(usize::MAX);
-                if d.start > *ipos && d.start < first_pub {
+            if c.starts_with("foreign3") && d.foreign_args.first().map_or(true, |a| a.0 != d.info || a.1 != d.ctx) {
+                rep.viol("C04/args", format!("pre-existing siginfo handler got different info/context pointers in delivery {}", d.id));
+            }
+        }
+        if at_takeover.is_some() {
+            if d.start > ipos && d.start < first_pub {
+                nt04 = true;
+                rep.class("delivery-in-takeover-window");
+            }
+            for o in ops.iter().filter(|o| o.name == "register" && o.a != d.sig && o.publishes.len() == 2) {
+                if o.call < d.start && o.ret.map_or(true, |r| r > d.start) {
                     nt04 = true;
-                    rep.class("delivery-in-takeover-window");
-                }
-                // another signal's first registration in progress
-                for o in ops.iter().filter(|o| o.name == "register" && o.a != d.sig && o.publishes.len() == 2) {
-                    if o.call < d.start && o.ret.map_or(true, |r| r > d.start) {
-                        nt04 = true;
-                        rep.class("delivery-during-other-first-registration");
-                    }
+                    rep.class("delivery-during-other-first-registration");
                 }
             }
-        } else if n != 0 {
-            rep.viol("C04/foreign-calls=x", format!("a handler was called for signal {} whose previous disposition was default/ignore", d.sig));
+            if foreign_installs.iter().any(|(p, s, _)| *s == d.sig && *p > reg_call && *p < ipos) {
+                nt04 = true;
+                rep.class("third-party-sigaction-during-registration");
+            }
         }
         for ai in &d.act_infos {
             if *ai != d.info {
@@ -1127,7 +1213,24 @@ pub fn run_case(case: &RegCase) -> CaseReport {
     rep
 }
 
+/// C01 and C18 search two scopes: the whole registry (forked) and the bare half-lock (in-process).
+#[derive(Clone, Debug, Serialize, Deserialize)]
+pub enum RegOrProbe {
+    Reg(RegCase),
+    Probe(crate::probe::ProbeCase),
+}
+
+pub fn run_any(c: &RegOrProbe) -> CaseReport {
+    match c {
+        RegOrProbe::Reg(c) => run_case(c),
+        RegOrProbe::Probe(c) => crate::probe::run_case(c),
+    }
+}
+
 fn replay(v: &Value) -> CaseReport {
+    if let Ok(c) = serde_json::from_value::<RegOrProbe>(v.clone()) {
+        return run_any(&c);
+    }
     let case: RegCase = serde_json::from_value(v.clone()).expect("case");
     run_case(&case)
 }
@@ -1139,12 +1242,25 @@ macro_rules! worker_fn {
         }
     };
 }
-worker_fn!(w01, Focus::C01);
+fn w01(def: &PropDef, args: &WorkerArgs) -> WorkerReport {
+    let strat = prop_oneof![
+        1 => strategy(Focus::C01).prop_map(RegOrProbe::Reg),
+        1 => crate::probe::strategy().prop_map(RegOrProbe::Probe),
+    ]
+    .boxed();
+    generic_worker(def, args, strat, &run_any)
+}
 worker_fn!(w02, Focus::C02);
 worker_fn!(w04, Focus::C04);
 fn w18(def: &PropDef, args: &WorkerArgs) -> WorkerReport {
-    let strat = prop_oneof![5 => strategy(Focus::C18), 1 => sustain_strategy()].boxed();
-    generic_worker(def, args, strat, &run_case)
+    let strat = prop_oneof![
+        5 => strategy(Focus::C18).prop_map(RegOrProbe::Reg),
+        1 => sustain_strategy().prop_map(RegOrProbe::Reg),
+        3 => crate::probe::strategy().prop_map(RegOrProbe::Probe),
+        1 => crate::probe::sustain_strategy().prop_map(RegOrProbe::Probe),
+    ]
+    .boxed();
+    generic_worker(def, args, strat, &run_any)
 }
 
 const ASSUME: &[&str] = &[
@@ -1159,7 +1275,7 @@ pub static C01: PropDef = PropDef {
     prefixes: &["C01/", "crash/sig=11", "crash/sig=7"],
     rule: "proptest-generated programs of 2-5 threads x <=5 ops over {register, unregister(own/shared id), unregister_signal, deliver} on 3 signals + nested deliveries at generated points x byte schedule, one forked child per case; oracle: quiescence of removed actions, capture released exactly once by the removing thread inside the removing call at handler depth 0, snapshot epochs (no free while a read section is open, no section on a freed snapshot), no action sees a released capture. Non-trivial = a read section overlapped a removal's publish..return window or a delivery nested inside a removal; distinct = hash of realised call/return/delivery/publish interleaving",
     assumptions: ASSUME,
-    cases: (1500, 40_000),
+    cases: (3000, 60_000),
     shrink_iters: 600,
     worker: w01,
     replay,
@@ -1195,7 +1311,7 @@ pub static C18: PropDef = PropDef {
     prefixes: &["C18/"],
     rule: "same generator with 2-5 mutator threads, panicking mutators (forbidden signal; capture whose Drop panics inside the publishing call) and finite deliveries; after the generated schedule prefix the executor completes fairly; oracle: no deadlock, completion within the step bound, no unexpected panic in a later mutator. Non-trivial = a mutator blocked on the writer mutex, the barrier spun, or a panicking mutator preceded another; distinct = hash of realised interleaving",
     assumptions: ASSUME,
-    cases: (1500, 40_000),
+    cases: (2500, 60_000),
     shrink_iters: 600,
     worker: w18,
     replay,
